@@ -56,6 +56,15 @@ Theorem C09_rigs_first_wins : forall skip st ho ins d f, merged skip st ho ins d
 Proof. exact rigs_first_wins. Qed.
 Print Assumptions C09_rigs_first_wins.
 
+(* nested rigs: a member may itself be a rig id (car -> stereo, stereo -> cam0).  The rigs table is keyed by the PAIR
+   (rig, member): whether the merge holds (r, m) depends on the inputs' entries for that very pair only, NOT on m being
+   mounted on r through a sub-rig in some input — a direct entry (car, cam0) is never dropped because cam0 is already
+   reachable through car -> stereo -> cam0, in another input or in the same one, whatever the insertion order. *)
+Theorem C09_rig_entry_depends_on_its_pair_only : forall skip st ho ins d f, merged skip st ho ins d f ->
+  forall r m, lookup_o (r, m) (k_rigs d) = None <-> forall i, In i ins -> lookup_o (r, m) (k_rigs (fst i)) = None.
+Proof. exact rigs_entry_absent_iff. Qed.
+Print Assumptions C09_rig_entry_depends_on_its_pair_only.
+
 (* two keys (timestamp, device): trajectories, gnss, accelerometer, gyroscope, magnetic *)
 Theorem C09_tables_first_wins : forall skip st ho ins d f, merged skip st ho ins d f ->
   forall p k, skipped skip (part_of_t p) = false ->
@@ -295,6 +304,18 @@ Example C09_example :
     lookup "s.jpg" (o_rec f) = Some (Some "bytesA-s") /\ lookup "a.pcd" (o_rec f) = Some (Some "bytesA-pcd") /\
     lookup ("sift", "a.jpg") (o_feat f IKp) = Some "kptA" /\ lookup ("sift", "s.jpg") (o_feat f IKp) = Some "kptB-s".
 Proof. eexists. eexists. split; [vm_compute; reflexivity|]. vm_compute. repeat split. Qed.
+
+(* nested rigs: the sub-rig route (car -> stereo -> cam0) of the first input does not hide the direct entry of the second,
+   nor does a sub-rig listed before its parent inside one input *)
+Example C09_example_nested_rigs :
+  let none_data rigs := ex_data None rigs None None None None None None in
+  let A := (none_data (Some [(("stereo", "cam0"), "s-c0"); (("car", "stereo"), "c-s")]), ex_store [] [] []) in
+  let B := (none_data (Some [(("car", "cam0"), "c-c0"); (("stereo", "cam0"), "other")]), ex_store [] [] []) in
+  let C := (none_data (Some [(("stereo", "cam0"), "s-c0"); (("car", "stereo"), "c-s"); (("car", "cam0"), "c-c0")]), ex_store [] [] []) in
+  (exists d f, merge_keep [] SSkip true [A; B] = Ok (d, f) /\
+     k_rigs d = Some [(("stereo", "cam0"), "s-c0"); (("car", "stereo"), "c-s"); (("car", "cam0"), "c-c0")]) /\
+  (exists d f, merge_keep [] SSkip true [C] = Ok (d, f) /\ k_rigs d = k_rigs (fst C)).
+Proof. split; eexists; eexists; (split; [vm_compute; reflexivity|]); vm_compute; reflexivity. Qed.
 
 (* the outcomes that are not successes are reachable too *)
 Example C09_failures_reachable :
